@@ -23,6 +23,20 @@ pub fn canonical_diff(a_img: &[u8], a: &Image, b_img: &[u8], b: &Image, volatile
     canonical_diff_opts(a_img, a, b_img, b, &DiffOpts { volatile_tids: volatile_tids.to_vec(), ..Default::default() })
 }
 
+/// Two contexts of one thread that differ only because the thread was caught restarting an
+/// interrupted system call in one of them: equal except rax and rip, rip apart by 2, the lower one
+/// with a system-call number in rax (see the comment in `canonical_diff_opts`).
+fn restart_equivalent(p: &[u8], q: &[u8]) -> bool {
+    if p.len() != q.len() || p.len() < 256 {
+        return false;
+    }
+    let only_rax_rip = (0..p.len()).all(|i| p[i] == q[i] || (120..128).contains(&i) || (248..256).contains(&i));
+    let rip = |c: &[u8]| u64::from_le_bytes(c[248..256].try_into().unwrap());
+    let rax = |c: &[u8]| u64::from_le_bytes(c[120..128].try_into().unwrap());
+    let (lo, hi) = if rip(p) < rip(q) { (p, q) } else { (q, p) };
+    only_rax_rip && rip(hi) - rip(lo) == 2 && rax(lo) < 1024
+}
+
 pub fn canonical_diff_opts(a_img: &[u8], a: &Image, b_img: &[u8], b: &Image, opts: &DiffOpts) -> Vec<String> {
     let volatile_tids = &opts.volatile_tids[..];
     let mut d = Vec::new();
@@ -49,7 +63,11 @@ pub fn canonical_diff_opts(a_img: &[u8], a: &Image, b_img: &[u8], b: &Image, opt
             if (x.stack_start, x.stack_size) != (y.stack_start, y.stack_size) {
                 d.push(format!("thread {}: stack {:#x}+{} vs {:#x}+{}", x.tid, x.stack_start, x.stack_size, y.stack_start, y.stack_size));
             } else if blob(a_img, x.stack_rva, x.stack_size) != blob(b_img, y.stack_rva, y.stack_size) {
-                d.push(format!("thread {}: stack bytes differ", x.tid));
+                let sa = a_img.get(x.stack_rva as usize..(x.stack_rva + x.stack_size) as usize).unwrap_or(&[]);
+                let sb = b_img.get(y.stack_rva as usize..(y.stack_rva + y.stack_size) as usize).unwrap_or(&[]);
+                let first = (0..sa.len().min(sb.len())).find(|&i| sa[i] != sb[i]);
+                let ndiff = (0..sa.len().min(sb.len())).filter(|&i| sa[i] != sb[i]).count();
+                d.push(format!("thread {}: stack bytes differ (stack {:#x}+{}, {} bytes differ, first at address {:#x})", x.tid, x.stack_start, x.stack_size, ndiff, x.stack_start + first.unwrap_or(0) as u64));
             }
             // A thread blocked in a system call that was interrupted by the previous dump's stop and
             // continued restarts the call: the kernel steps rip back by 2 (onto `syscall`) and puts
@@ -103,7 +121,13 @@ pub fn canonical_diff_opts(a_img: &[u8], a: &Image, b_img: &[u8], b: &Image, opt
             if (x.thread_id, x.code, x.flags) != (y.thread_id, y.code, y.flags) {
                 d.push(format!("exception records differ: {:?} vs {:?}", (x.thread_id, x.code, x.flags), (y.thread_id, y.code, y.flags)));
             }
-            let volatile = volatile_tids.contains(&x.thread_id);
+            // (a blamed thread without crash context that restarts its system call: same exemption
+            // as for the thread contexts)
+            let restarting_blamed = match (&x.ctx, &y.ctx) {
+                (Some(p), Some(q)) => restart_equivalent(&p.raw, &q.raw),
+                _ => false,
+            };
+            let volatile = volatile_tids.contains(&x.thread_id) || restarting_blamed;
             if !volatile && x.address != y.address {
                 d.push(format!("exception addresses differ: {:#x} vs {:#x}", x.address, y.address));
             }
@@ -167,7 +191,7 @@ pub fn run(rep: &mut Report, thorough: bool) {
     rep.rule = "histories of 2..5 dump requests on ONE writer under generated option sets, against the same quiescent target, with the blamed thread / principal address / crash context / target changed between requests through the public fields (only the changed fields are re-assigned), and with application memory configured on the writer that the target maps only after the first two (failing) requests, and with a crash context whose instruction pointer lies in a file mapping that is unreadable (file truncated) during the first two requests; after each request a fresh identically configured writer dumps the same target and the two images are compared in canonical form (modulo timestamp, RVAs and the running main thread); each reused image also goes through the strict decoder. distinct = hash(option set, history shape); non-trivial = >= 2 Ok dumps compared".into();
     let mut rng = Rng::new(rep.seed.wrapping_mul(191_919));
     let ntargets = if thorough { 240 } else { 6 };
-    let per_target = if thorough { 16 } else { 8 };
+    let per_target = if thorough { 18 } else { 9 };
     for _ in 0..ntargets {
         let cfg = TargetCfg { sentinels: rng.range(1, 5) as usize, max_spinners: 0, heartbeats: 0, sleepers: 0, exiters: 0, names: true, regions: 3, elf_files: 1, fds: 3, stack_pages_max: 3, null_sp_threads: 1, big_region_pages: 0 };
         // a region the target maps only when asked: application memory configured on the writer
@@ -203,7 +227,7 @@ pub fn run(rep: &mut Report, thorough: bool) {
             let knobs = OptKnobs::from_bits(bits, &mut rng);
             let o1 = scen::random_opts(&mut rng, &sc, &knobs);
             // h = 0..5: the six basic shapes; 6: crash ip in a truncated file; 7: late application memory
-            let shape = if h % 8 == 6 && exec_file.is_some() { 7 } else if h % 8 == 7 && !late_mapped { 6 } else { h % 8 % 6 }; // 6: configured application memory becomes readable only after the first (failing) requests; 5: every request is preceded by a failed one; 0: same options; 1: blamed thread changes; 2: principal address unset later; 3: crash context removed later; 4: target swapped
+            let shape = if h % 9 == 8 { 8 } else if h % 9 == 6 && exec_file.is_some() { 7 } else if h % 9 == 7 && !late_mapped { 6 } else { h % 9 % 6 }; // 6: configured application memory becomes readable only after the first (failing) requests; 5: every request is preceded by a failed one; 0: same options; 1: blamed thread changes; 2: principal address unset later; 3: crash context removed later; 4: target swapped
             let mut o1 = o1;
             if shape == 6 {
                 o1.app_memory.push((late.0 + 8 * rng.below(64), 1 + rng.below(4096)));
@@ -219,7 +243,7 @@ pub fn run(rep: &mut Report, thorough: bool) {
                     o1.crash = Some(dump::CrashSpec { gregs: scen::crash_gregs(&mut crng, sen.regs.gpr[crate::spec::RSP], addr + 200), fpstate: crng.bytes(512), signo: 7, code: 2, addr: addr + 200, tid, noise_seed: 0 });
                 }
             }
-            let len = if shape == 6 || shape == 7 { 4 } else { rng.range(2, 5) as usize };
+            let len = if shape == 6 || shape == 7 { 4 } else if shape == 8 { 3 } else { rng.range(2, 5) as usize };
             let _g = dump::DUMP_LOCK.lock().unwrap_or_else(|e| e.into_inner());
             let (mut w, _guard) = dump::configure(&o1);
             let mut compared = 0;
@@ -274,6 +298,30 @@ pub fn run(rep: &mut Report, thorough: bool) {
                             let ok = std::fs::OpenOptions::new().write(true).open(path).and_then(|f| f.set_len(2 * crate::tspec::PAGE)).is_ok();
                             history.push(format!("the file is extended again (ok={ok})"));
                             rep.count("crash_ip_mappings_made_readable_again", ok as u64);
+                        }
+                    }
+                }
+                if shape == 8 && k == 1 {
+                    // a module of the target is replaced IN PLACE (same path, same address, same
+                    // size) by another image - a plug-in reloaded, a binary upgraded under a running
+                    // process: the pages are shared with the file, so the target's memory changes too
+                    use std::os::unix::fs::FileExt;
+                    for f in sc.files.iter().filter(|f| !f.deleted && f.elf) {
+                        let mut spec = f.spec.clone();
+                        if let Some(id) = spec.phdr_note.as_mut() {
+                            *id = rng.bytes(id.len());
+                        }
+                        if let Some(id) = spec.section_note.as_mut() {
+                            *id = rng.bytes(id.len());
+                        }
+                        let built = crate::elf::build(&spec);
+                        if built.bytes.len() == f.image.len() {
+                            if let Ok(file) = std::fs::OpenOptions::new().write(true).open(&f.path) {
+                                if file.write_all_at(&built.bytes, f.pad).is_ok() {
+                                    history.push(format!("module {} rewritten in place with another build id", f.path));
+                                    rep.count("modules_replaced_in_place", 1);
+                                }
+                            }
                         }
                     }
                 }
